@@ -124,8 +124,10 @@ def _core():
                 # order group -> C01/C02; model group from order-free states -> C03;
                 # struct group from order-free states -> C04 and the continuation half of C10
                 t_or = tq(n, qmax_of(kind, op, 6 if op in ("push", "change_priority", "remove", "pop_hi") else 4), tmax)
-                t_mo = tq(n, qmax_of(kind, op, 3), tmax - 1)
-                t_st = tq(n, qmax_of(kind, op, 3), tmax - 1)
+                # (min-max heap: n = 3 is the first size with two max-level nodes, one of them in
+                # the last slot; 130-165 s per instance)
+                t_mo = tq(n, qmax_of(kind, op, 3, 3, 3), tmax - 1)
+                t_st = tq(n, qmax_of(kind, op, 3, 3, 3), tmax - 1)
                 if kind == "dq" and op == "change_priority_by" and n >= 2:
                     t_or = t_mo = t_st = THOROUGH    # same sift path as change_priority
                 step(op, kind, n, "inv", "or", {op_: t_or}, grow=grow)
